@@ -1,6 +1,13 @@
 /-
 The parameters of the negotiation model as regenerated from the Go source
 (`Gotlcp.Facts.{tlcp,dtlcp}.*`).  The oracle and the C01 theorems use these definitions.
+
+Two parameters are NOT text facts: the version table (`treeVersions`) and the loop shape of
+`negotiateALPN` (`treeAlpnOuterIsFirstArg`) are literal definitions of `Model/Negotiate.lean` which
+`Gotlcp.Tie.Negotiate` proves, for all inputs, about the functions TRANSLATED from both stacks on every
+run (`Config.supportedVersions`, `Config.mutualVersion`, `supportedVersionsFromMax`, `negotiateALPN`,
+`checkALPN`).  What remains a fact about ALPN is the call site in the untranslated
+`processClientHello`: the server's list is passed first (`negAlpnCallServerFirst`).
 -/
 import Gotlcp.Model.Negotiate
 import Gotlcp.Generated.Facts
@@ -16,13 +23,13 @@ def knownOf (t : List (Nat × Nat × Nat × Nat × Nat × Bool × String)) : Lis
   t.map fun r => (r.1, r.2.2.2.2.1)
 
 def tlcpParams : Params :=
-  { versions := Facts.tlcp.negVersions, pref := Facts.tlcp.preferenceOrder,
+  { versions := treeVersions, pref := Facts.tlcp.preferenceOrder,
     disabled := Facts.tlcp.disabledSuites, known := knownOf Facts.tlcp.suiteTable,
     flagECDHE := Facts.tlcp.suiteECDHE, flagECSign := Facts.tlcp.suiteECSign,
     ecdheIds := Facts.tlcp.negEcdheIds, authIota := Facts.tlcp.negAuthIota,
     requires := Facts.tlcp.negRequiresClientCert,
     serverPrefFirst := Facts.tlcp.negSelectServerFirst,
-    alpnServerFirst := Facts.tlcp.negAlpnServerFirst,
+    alpnServerFirst := treeAlpnOuterIsFirstArg && Facts.tlcp.negAlpnCallServerFirst,
     clientEcdheGuard := Facts.tlcp.negHelloEcdheGuard,
     encCertNeedsSig := Facts.tlcp.negEncCertNeedsSigCert,
     resumeHonoursPolicy := Facts.tlcp.negResumePolicyGuards && Facts.tlcp.negResumeReprocessesCerts,
@@ -30,13 +37,13 @@ def tlcpParams : Params :=
     cloneMissing := Facts.tlcp.cloneMissing }
 
 def dtlcpParams : Params :=
-  { versions := Facts.dtlcp.negVersions, pref := Facts.dtlcp.preferenceOrder,
+  { versions := treeVersions, pref := Facts.dtlcp.preferenceOrder,
     disabled := Facts.dtlcp.disabledSuites, known := knownOf Facts.dtlcp.suiteTable,
     flagECDHE := Facts.dtlcp.suiteECDHE, flagECSign := Facts.dtlcp.suiteECSign,
     ecdheIds := Facts.dtlcp.negEcdheIds, authIota := Facts.dtlcp.negAuthIota,
     requires := Facts.dtlcp.negRequiresClientCert,
     serverPrefFirst := Facts.dtlcp.negSelectServerFirst,
-    alpnServerFirst := Facts.dtlcp.negAlpnServerFirst,
+    alpnServerFirst := treeAlpnOuterIsFirstArg && Facts.dtlcp.negAlpnCallServerFirst,
     clientEcdheGuard := Facts.dtlcp.negHelloEcdheGuard,
     encCertNeedsSig := Facts.dtlcp.negEncCertNeedsSigCert,
     resumeHonoursPolicy := Facts.dtlcp.negResumePolicyGuards && Facts.dtlcp.negResumeReprocessesCerts,
